@@ -377,6 +377,38 @@ fn months_in_changing_zone(acc: &mut Acc) {
     }
 }
 
+/// Histories of length two on one thread for the field replacements whose results depend on the *target* year or
+/// month class: a call that fails, the same call again, and calls whose (month, day) agree while the leap class differs.
+fn history_pairs(acc: &mut Acc) {
+    let dates: Vec<(i64, u32, u32)> = vec![(2024, 2, 29), (2023, 2, 28), (2023, 3, 15), (2024, 3, 15), (2024, 1, 29), (2023, 1, 29), (1900, 2, 28), (2000, 2, 29), (2023, 1, 31), (2024, 12, 31)];
+    let years: Vec<i64> = vec![2023, 2024, 1900, 2000, 2100, 2400];
+    let mut calls: Vec<(usize, i64)> = vec![];
+    for (i, _) in dates.iter().enumerate() {
+        for &y in &years {
+            calls.push((i, y));
+        }
+    }
+    for &k in &pair_order(calls.len()) {
+        let (i, y) = calls[k];
+        with_year_all(acc, days_from_civil(dates[i].0, dates[i].1, dates[i].2), &[y]);
+    }
+    let al: Vec<u32> = vec![];
+    for &k in &pair_order(dates.len()) {
+        let (y, m, d) = dates[k];
+        let date = mk_date(days_from_civil(y, m, d));
+        replacements(acc, date, y, m, d, false, &al);
+        month_steps(acc, date, y, m, d, &[1, 2, 12]);
+        // month lengths asked in alternation between year classes
+        for yy in [1900i64, 2024, 2023, 2000] {
+            acc.transitions += 1;
+            let got = Month::February.num_days(yy as i32);
+            if got != Some(days_in_month(yy, 2) as u8) {
+                acc.violation("Month::num_days:history", format!("Month::February.num_days({}) after other years were asked", yy), format!("{:?}", Some(days_in_month(yy, 2))), format!("{:?}", got));
+            }
+        }
+    }
+}
+
 fn main() {
     install_panic_hook();
     let args = parse_args();
@@ -453,6 +485,7 @@ fn main() {
             }
             if i == 0 {
                 months_in_changing_zone(acc);
+                history_pairs(acc);
             }
             acc.traces += 1;
         } else {
